@@ -131,6 +131,25 @@ func c07FieldAccessPool() []c07Def {
 	}
 }
 
+// c07NamesPool: user types whose NAMES look like what fc generates or uses as separators: T0 / T1 (the names of
+// type parameters), A_B / B_C (an underscore, which joined name and type arguments in the keys of the
+// instantiation tables: Pair<A_B, C> and Pair<A, B_C> - genuine defect 05cf21d).  Generic functions and users of
+// one instantiation must not care whether an unrelated definition introduced such a name or the other
+// instantiation (seed C07g renamed type parameters away from ANY type defined so far).
+func c07NamesPool() []c07Def {
+	return []c07Def{
+		/*0*/ {name: "T0", src: "type T0 = {Fz: int}\n", owns: exact("T0"), declOnly: true},
+		/*1*/ {name: "T1", src: "type T1 =\n  | Ct1 of int\n  | Ct2\n", owns: prefixOwner("T1"), declOnly: true},
+		/*2*/ {name: "idn", src: "let idn x =\n  x\n", owns: exact("idn")},
+		/*3*/ {name: "pickn", src: "let pickn a b =\n  (b, a)\n", owns: exact("pickn")},
+		/*4*/ {name: "usen", src: "let usen () =\n  pickn (idn 1) \"s\"\n", deps: []int{2, 3}, owns: exact("usen")},
+		/*5*/ {name: "AB", src: "type A_B = {P: int}\ntype Cx = {Q: int}\ntype Ax = {R: string}\ntype B_Cx = {S: int}\ntype Pairn<X, Y> = {Fst: X; Snd: Y}\n", owns: exact("A_B", "Cx", "Ax", "B_Cx", "Pairn"), declOnly: true},
+		/*6*/ {name: "mkn", src: "let mkn () : Pairn<A_B, Cx> =\n  let ab = {P=1}\n  let c = {Q=2}\n  {Fst=ab; Snd=c}\n", deps: []int{5}, owns: exact("mkn")},
+		/*7*/ {name: "othern", src: "let othern (p: Pairn<Ax, B_Cx>) =\n  p.Fst.R\n", deps: []int{5}, owns: exact("othern")},
+		/*8*/ {name: "hn", src: "let hn () =\n  let p = mkn ()\n  p.Fst.P\n", deps: []int{5, 6}, owns: exact("hn")},
+	}
+}
+
 func c07Pool(thorough bool) []c07Def {
 	pool := []c07Def{
 		/*0*/ {name: "R", src: "type R = {A: int; B: string}\n", owns: exact("R"), declOnly: true},
@@ -394,6 +413,18 @@ func checkC07(c *core.Ctx) {
 	fa := c07FieldAccessPool()
 	c.Set("field_access_pool_size", len(fa))
 	c07ExplorePool(c, sc, fc, fa, [][2]int{{6, maxFiles}})
+	nm := c07NamesPool()
+	c.Set("names_pool_size", len(nm))
+	// two independent halves (type-parameter names; underscore names), each with all its histories
+	c07ExplorePool(c, sc, fc, nm[:5], [][2]int{{5, maxFiles}})
+	nmb := append([]c07Def{}, nm[5:]...)
+	for i := range nmb {
+		for j := range nmb[i].deps {
+			nmb[i].deps = append([]int{}, nmb[i].deps...)
+			nmb[i].deps[j] -= 5
+		}
+	}
+	c07ExplorePool(c, sc, fc, nmb, [][2]int{{4, maxFiles}})
 	inst := c07InstantiationPool()
 	c.Set("instantiation_pool_size", len(inst))
 	c07ExplorePool(c, sc, fc, inst, [][2]int{{5, maxFiles}})
